@@ -44,7 +44,7 @@ var (
 	taskQueue            = list.New()
 	prioritizedTaskQueue = list.New()
 	queuesLock           sync.Mutex
-	queueWg              sync.WaitGroup
+	queueWg              = newTaskWaitGroup()
 
 	taskSchedule = list.New()
 	scheduleLock sync.Mutex
@@ -55,6 +55,48 @@ var (
 	notifyTaskScheduler = make(chan struct{}, 1)
 	taskTimeslot        = make(chan struct{})
 )
+
+// taskWaitGroup is used by the queue handler to wait for the running tasks.
+// Unlike a sync.WaitGroup, it may be added to while another goroutine is
+// waiting: overdue tasks are started by the schedule handler while the queue
+// handler waits for the queued task that is currently running.
+type taskWaitGroup struct {
+	lock sync.Mutex
+	cond *sync.Cond
+	cnt  int
+}
+
+func newTaskWaitGroup() *taskWaitGroup {
+	wg := &taskWaitGroup{}
+	wg.cond = sync.NewCond(&wg.lock)
+	return wg
+}
+
+// Add adds delta to the counter.
+func (wg *taskWaitGroup) Add(delta int) {
+	wg.lock.Lock()
+	defer wg.lock.Unlock()
+
+	wg.cnt += delta
+	if wg.cnt <= 0 {
+		wg.cond.Broadcast()
+	}
+}
+
+// Done decrements the counter by one.
+func (wg *taskWaitGroup) Done() {
+	wg.Add(-1)
+}
+
+// Wait blocks until the counter is zero.
+func (wg *taskWaitGroup) Wait() {
+	wg.lock.Lock()
+	defer wg.lock.Unlock()
+
+	for wg.cnt > 0 {
+		wg.cond.Wait()
+	}
+}
 
 const (
 	maxTimeslotWait   = 30 * time.Second
